@@ -70,6 +70,7 @@ type Cfg struct {
 	Logger    string   `json:"logger"` // capture (default), std, json
 	Fallback  bool     `json:"fallback"`
 	Latedebug bool     `json:"latedebug"` // debug logging is switched on while the AUTH exchange is in flight
+	Variant   string   `json:"variant"`   // "", ctxdl, ctxcancel, latereply, customport, sslflag (environment variants)
 	Redial    bool     `json:"redial"`    // dial with TLS policy none first, then set the policy of the scenario and run the operation
 	Big       bool     `json:"-"`         // attachments larger than every buffer on the way (content stalls)
 }
@@ -378,6 +379,16 @@ func BuildMsg(m int, cfg Cfg, failing bool) (*mail.Msg, error) {
 			n, _ := io.WriteString(w, bodyHead)
 			return int64(n), errProducer
 		})
+	case "failEmptyErr": // a producer whose error has an empty text
+		msg.SetBodyWriter(mail.TypeTextPlain, func(w io.Writer) (int64, error) {
+			n, _ := io.WriteString(w, bodyHead)
+			return int64(n), errors.New("")
+		})
+	case "failShortErr": // ... or a text that is shorter than a reply code
+		msg.SetBodyWriter(mail.TypeTextPlain, func(w io.Writer) (int64, error) {
+			n, _ := io.WriteString(w, bodyHead)
+			return int64(n), errors.New("5")
+		})
 	case "failEOF": // a producer whose source ends early reports io.EOF / io.ErrUnexpectedEOF
 		msg.SetBodyWriter(mail.TypeTextPlain, func(w io.Writer) (int64, error) {
 			n, _ := io.WriteString(w, bodyHead)
@@ -402,6 +413,8 @@ func BuildMsg(m int, cfg Cfg, failing bool) (*mail.Msg, error) {
 		msg.AttachReadSeeker("data.bin", &failSeeker{})
 	} else if rf == "failAttEOF" {
 		msg.AttachReadSeeker("data.bin", &failSeeker{err: io.ErrUnexpectedEOF, data: attachment(m)[:100]})
+	} else if rf == "failEmptyErr" || rf == "failShortErr" {
+		// (a message without attachment: the producer's error is the one that reaches the client unwrapped)
 	} else {
 		att := attachment(m)
 		if cfg.Big {
@@ -711,6 +724,9 @@ func (rn *Runner) Run() {
 		}
 	}
 	scfg.Implicit = cfg.Policy == "implicit"
+	if cfg.Variant == "latereply" && rn.stall { // the silent server answers after all - three timeouts later
+		scfg.LateReply = 3 * StallTimeout
+	}
 	rn.srv = refsmtp.New(scfg, r)
 
 	refusePrimary := false
@@ -723,8 +739,21 @@ func (rn *Runner) Run() {
 			refusePrimary = true
 		}
 	}
+	// the context of the dial operations: none, one with a deadline far beyond the client timeout, or one
+	// that is cancelled as soon as the transport connection exists
+	opctx, opcancel := context.Background(), context.CancelFunc(func() {})
+	switch cfg.Variant {
+	case "ctxdl":
+		opctx, opcancel = context.WithTimeout(context.Background(), 10*time.Minute)
+	case "ctxcancel":
+		opctx, opcancel = context.WithCancel(context.Background())
+	}
+	defer opcancel()
 	dials := 0
 	dial := func(ctx context.Context, network, address string) (net.Conn, error) {
+		if cfg.Variant == "ctxcancel" {
+			defer opcancel() // the caller gives up right after the connection was established
+		}
 		dials++
 		r.Emit("dial", "addr", address, "n", dials)
 		if refusePrimary && dials == 1 {
@@ -780,10 +809,15 @@ func (rn *Runner) Run() {
 			mail.WithTLSConfig(&tls.Config{ServerName: "mail.example.test", MinVersion: tls.VersionTLS12})}
 	} else if cfg.Fallback {
 		opts = append(opts, mail.WithTLSPortPolicy(policy)) // 587 with fallback to 25 when opportunistic
+	} else if cfg.Variant == "customport" { // the port is chosen first, then the policy through the port-policy setter
+		opts = append(opts, mail.WithPort(2525), mail.WithTLSPortPolicy(policy))
 	} else if cfg.Redial {
 		opts = append(opts, mail.WithTLSPolicy(mail.NoTLS)) // the policy of the scenario is set after the first dial
 	} else {
 		opts = append(opts, mail.WithTLSPolicy(policy))
+	}
+	if cfg.Variant == "sslflag" { // implicit TLS requested, but the transport comes from the caller's dial function
+		opts = append(opts, mail.WithSSL())
 	}
 	if at, ok := authTypes[cfg.Authtype]; ok {
 		opts = append(opts, mail.WithSMTPAuth(at), mail.WithUsername(User), mail.WithPassword(Pass))
@@ -948,7 +982,7 @@ func (rn *Runner) Run() {
 	case "Send":
 		r.Emit("call", "op", "Dial")
 		var derr error
-		el := rn.timed(func() { derr = c.DialWithContext(context.Background()) })
+		el := rn.timed(func() { derr = c.DialWithContext(opctx) })
 		r.Emit("ret", "op", "Dial", "err", derr != nil, "elapsed", el, "text", clip(derr))
 		if derr == nil {
 			r.Emit("call", "op", "Send")
@@ -962,12 +996,12 @@ func (rn *Runner) Run() {
 	case "DialAndSend":
 		r.Emit("call", "op", "DialAndSend")
 		var serr error
-		el := rn.timed(func() { serr = c.DialAndSend(msgs...) })
+		el := rn.timed(func() { serr = c.DialAndSendWithContext(opctx, msgs...) })
 		sendRet("DialAndSend", serr, el)
 	case "Reset":
 		r.Emit("call", "op", "Dial")
 		var derr error
-		el := rn.timed(func() { derr = c.DialWithContext(context.Background()) })
+		el := rn.timed(func() { derr = c.DialWithContext(opctx) })
 		r.Emit("ret", "op", "Dial", "err", derr != nil, "elapsed", el, "text", clip(derr))
 		if derr == nil {
 			r.Emit("call", "op", "Reset")
@@ -981,7 +1015,7 @@ func (rn *Runner) Run() {
 	case "Dial":
 		r.Emit("call", "op", "Dial")
 		var derr error
-		el := rn.timed(func() { derr = c.DialWithContext(context.Background()) })
+		el := rn.timed(func() { derr = c.DialWithContext(opctx) })
 		r.Emit("ret", "op", "Dial", "err", derr != nil, "elapsed", el, "text", clip(derr))
 		if derr == nil {
 			var cerr error
